@@ -1,6 +1,11 @@
 package gen
 
-import "verif/tv"
+import (
+	"fmt"
+	"strings"
+
+	"verif/tv"
+)
 
 // MultiPkg: programs that use a second generated package (calls, constants, struct types and
 // methods of another user package). goose prints such references as dep.X and emits
@@ -74,4 +79,48 @@ func Fill(a []uint64, v uint64) {
 		p.Deps = map[string]map[string]string{"dep": {"dep.go": dep}}
 	}
 	return pkgs
+}
+
+// MultiPkgLookalikes: user packages that are merely *named* like the packages goose treats specially
+// (log, fmt, util, machine, disk, sync, filesys). Their functions are ordinary Go with effects; a
+// translator that recognises the special packages by the spelling of the qualifier turns the calls into
+// comments or into primitives with a different meaning. Rejected or equivalent (C02).
+func MultiPkgLookalikes() []*tv.Package {
+	deps := map[string]map[string]string{
+		"log":     {"log.go": "package log\n\nfunc Println(p *uint64, v uint64) {\n\t*p = *p + v\n}\n\nfunc Printf(p *uint64, v uint64) {\n\t*p = *p + v + v\n}\n\nfunc Print(p *uint64) {\n\t*p = 9\n}\n"},
+		"fmt":     {"fmt.go": "package fmt\n\nfunc Println(p *uint64) {\n\t*p = 7\n}\n\nfunc Printf(p *uint64, v uint64) {\n\t*p = v\n}\n"},
+		"util":    {"util.go": "package util\n\nfunc DPrintf(p *uint64, v uint64, w uint64) {\n\t*p = v + w\n}\n"},
+		"machine": {"machine.go": "package machine\n\nfunc UInt64Get(a []byte) uint64 {\n\treturn uint64(len(a)) + 100\n}\n\nfunc UInt64ToString(x uint64) uint64 {\n\treturn x + 5\n}\n"},
+		"disk":    {"disk.go": "package disk\n\nfunc Size() uint64 {\n\treturn 42\n}\n"},
+		"sync":    {"sync.go": "package sync\n\nfunc NewCond(x uint64) uint64 {\n\treturn x + 1\n}\n"},
+		"filesys": {"filesys.go": "package filesys\n\nfunc Names(x uint64) uint64 {\n\treturn x + 3\n}\n"},
+	}
+	type lk struct{ id, dep, src string }
+	cases := []lk{
+		{"mpl/user-log-println", "log", "func FN(x uint64) uint64 {\n\tp := new(uint64)\n\tlog.Println(p, x)\n\tlog.Println(p, 1)\n\treturn *p\n}"},
+		{"mpl/user-log-printf", "log", "func FN(x uint64) uint64 {\n\tp := new(uint64)\n\tlog.Printf(p, x)\n\treturn *p\n}"},
+		{"mpl/user-log-print-last", "log", "func FN(p *uint64) {\n\tlog.Print(p)\n}"},
+		{"mpl/user-fmt-println", "fmt", "func FN(x uint64) uint64 {\n\tp := new(uint64)\n\t*p = x\n\tfmt.Println(p)\n\treturn *p\n}"},
+		{"mpl/user-fmt-printf", "fmt", "func FN(x uint64) uint64 {\n\tp := new(uint64)\n\tfmt.Printf(p, x)\n\treturn *p + 1\n}"},
+		{"mpl/user-util-dprintf", "util", "func FN(x uint64) uint64 {\n\tp := new(uint64)\n\tutil.DPrintf(p, x, 2)\n\treturn *p\n}"},
+		{"mpl/user-machine-uint64get", "machine", "func FN(a []byte) uint64 {\n\treturn machine.UInt64Get(a)\n}"},
+		{"mpl/user-machine-tostring", "machine", "func FN(x uint64) uint64 {\n\treturn machine.UInt64ToString(x)\n}"},
+		{"mpl/user-disk-size", "disk", "func FN(x uint64) uint64 {\n\treturn disk.Size() + x\n}"},
+		{"mpl/user-sync-newcond", "sync", "func FN(x uint64) uint64 {\n\treturn sync.NewCond(x)\n}"},
+		{"mpl/user-filesys-names", "filesys", "func FN(x uint64) uint64 {\n\treturn filesys.Names(x)\n}"},
+	}
+	var out []*tv.Package
+	for i, c := range cases {
+		name := fmt.Sprintf("mpl%d", i)
+		fn := "F" + sanitize(c.id)
+		src := strings.ReplaceAll(c.src, "FN", fn)
+		pre := "import \"example.com/tvmod/" + name + "/" + c.dep + "\"\n"
+		file := "package " + name + "\n\n" + pre + "\n// " + c.id + "\n" + src + "\n"
+		from := strings.Count("package "+name+"\n\n"+pre+"\n", "\n") + 1
+		p := &tv.Package{Name: name, Files: map[string]string{"gen.go": file}, Prelude: pre,
+			Deps: map[string]map[string]string{c.dep: deps[c.dep]}}
+		p.Cases = []tv.Case{{ID: c.id, Func: fn, Reject: "may", File: "gen.go", FromLine: from, ToLine: strings.Count(file, "\n"), Src: src}}
+		out = append(out, p)
+	}
+	return out
 }
